@@ -258,6 +258,7 @@ func fatalKind(stderr string, exit int) string {
 
 type raceReport struct {
 	Key    string
+	Sites  []string // "race-site:<innermost golib frame>" of each access
 	Stacks string
 }
 
@@ -319,7 +320,11 @@ func parseRaceLogs(dir string) (raw int, reports []raceReport) {
 			}
 			sort.Strings(inner)
 			key := "race:" + strings.Join(inner, "|")
-			reports = append(reports, raceReport{Key: key, Stacks: strings.TrimSpace(blk)})
+			var sites []string
+			for _, f := range inner {
+				sites = append(sites, "race-site:"+f)
+			}
+			reports = append(reports, raceReport{Key: key, Sites: sites, Stacks: strings.TrimSpace(blk)})
 		}
 	}
 	return
@@ -517,6 +522,20 @@ func main() {
 						mg.counters["race_reports_raw"] += int64(raw)
 						mg.mu.Unlock()
 						for _, rp := range reps {
+							// A known finding may name the racing call site itself (an accessor that
+							// reads shared state without the lock): then every pair it takes part in
+							// is that finding. Pairs not involving a listed site are reported by pair.
+							siteKnown := false
+							for _, sk := range rp.Sites {
+								if _, ok := known[sk]; ok {
+									mg.fail(prop, known, sk, "", nil, seed)
+									siteKnown = true
+									break
+								}
+							}
+							if siteKnown {
+								continue
+							}
 							mg.fail(prop, known, rp.Key, "data race reported by the Go race detector", map[string]interface{}{"stacks": rp.Stacks, "flavour": "race", "shard": sh}, seed)
 						}
 						// remove parsed logs so that a re-spawn does not count them twice
